@@ -327,6 +327,61 @@ func heapCross(groups, valueSize int, six bool) heapCrossRes {
 	return res
 }
 
+type heapBigRes struct {
+	Keys         int   `json:"keys"`
+	ValueSize    int   `json:"value_bytes"`
+	AfterPartial int64 `json:"excess_after_deleting_some_bytes"` // retained minus (remaining keys x value size)
+	Remaining    int   `json:"remaining_keys"`
+	AfterAll     int64 `json:"retained_after_deleting_everything"`
+	Iterated     int   `json:"elements_iterated"`
+}
+
+// heapBig: LARGE values, so that one leaf kept alive by a stale reference (a child slot that was not unlinked, a
+// traversal stack that was not wiped, ...) weighs as much as thousands of nodes.  One branching position with `keys`
+// children (a node48 for 40, a node256 for 200), every iterator run once, then most keys deleted (down to a count
+// that does not rebuild the node), the live heap compared with what the remaining keys account for; then everything
+// deleted.
+func heapBig(keys, remaining, valueSize int) heapBigRes {
+	type big = []byte
+	res := heapBigRes{Keys: keys, ValueSize: valueSize, Remaining: remaining}
+	key := func(i int) string { return "big:" + string(rune(0x21+i)) + "!" }
+	base := liveHeap()
+	t := art.NewAlphaSortedTree[string, big]()
+	for i := 0; i < keys; i++ {
+		t.Insert(key(i), make(big, valueSize))
+	}
+	for range t.All() {
+		res.Iterated++
+	}
+	for range t.Backward() {
+		res.Iterated++
+	}
+	for range t.TopK(3) {
+		res.Iterated++
+	}
+	for range t.BottomK(uint(keys)) {
+		res.Iterated++
+	}
+	for range t.Prefix("big:") {
+		res.Iterated++
+	}
+	for range t.Range(key(0), key(keys-1)) {
+		res.Iterated++
+	}
+	t.Minimum()
+	t.Maximum()
+	for i := keys - 1; i >= remaining; i-- { // the highest bytes go: their slots are not reused by what follows
+		t.Delete(key(i))
+	}
+	res.AfterPartial = liveHeap() - base - int64(remaining)*int64(valueSize)
+	for i := 0; i < remaining; i++ {
+		t.Delete(key(i))
+	}
+	res.AfterAll = liveHeap() - base
+	runtime.KeepAlive(t)
+	return res
+}
+
 func heapMain(args []string) int {
 	seed, N, nkeys := uint64(1), 100000, 200
 	if len(args) > 0 {
@@ -348,6 +403,7 @@ func heapMain(args []string) int {
 		Kinds []heapKind     `json:"kinds"`
 		Bulk  []heapBulkRes  `json:"bulk"`
 		Cross []heapCrossRes `json:"cross_tree"`
+		Big   []heapBigRes   `json:"big_values"`
 	}
 	out.Seed, out.N = seed, N
 	// warm-up: tables of x/text, fmt, the pools' first use
@@ -363,6 +419,7 @@ func heapMain(args []string) int {
 	}
 	out.Bulk = append(out.Bulk, heapBulk("u4", "uint32", 120000), heapBulk("alpha", "string", 60000))
 	out.Cross = append(out.Cross, heapCross(300, 32*1024, false), heapCross(100, 16*1024, true))
+	out.Big = append(out.Big, heapBig(40, 15, 128*1024), heapBig(200, 50, 64*1024))
 	printJSON(out)
 	return 0
 }
